@@ -83,7 +83,7 @@ type dumpT struct {
 	plog []evT
 	wlog map[uint64][]evT // by ws, ascending offset
 	recs map[uint64][]recT
-	proj map[uint64][][2]uint64
+	proj [numProj]map[uint64][][2]uint64 // per projector, per ws: (WLog offset, stamp)
 }
 
 type evT struct {
@@ -149,7 +149,10 @@ func evOf(off uint64, ws uint64, woff uint64, e interface {
 func (r *rig) dump(maxID uint64) (*dumpT, error) {
 	as := r.life.as
 	ctx := context.Background()
-	d := &dumpT{wlog: map[uint64][]evT{}, recs: map[uint64][]recT{}, proj: map[uint64][][2]uint64{}}
+	d := &dumpT{wlog: map[uint64][]evT{}, recs: map[uint64][]recT{}}
+	for j := range d.proj {
+		d.proj[j] = map[uint64][][2]uint64{}
+	}
 	ids := map[uint64]map[uint64]bool{}
 	err := as.Events().ReadPLog(ctx, partID, istructs.FirstOffset, istructs.ReadToTheEnd, func(off istructs.Offset, e istructs.IPLogEvent) error {
 		x := evOf(uint64(off), uint64(e.Workspace()), uint64(e.WLogOffset()), e)
@@ -196,16 +199,18 @@ func (r *rig) dump(maxID uint64) (*dumpT, error) {
 				d.recs[ws] = append(d.recs[ws], recT{id, uint64(rec.AsInt64(fldV)), rec.AsBool("sys.IsActive")})
 			}
 		}
-		kb := as.ViewRecords().KeyBuilder(qnView)
-		kb.PutInt64(viewP, 1)
-		err = as.ViewRecords().Read(ctx, istructs.WSID(ws), kb, func(k istructs.IKey, v istructs.IValue) error {
-			d.proj[ws] = append(d.proj[ws], [2]uint64{uint64(k.AsInt64(viewOff)), uint64(v.AsInt64(viewStamp) - kit.Epoch.UnixMilli())})
-			return nil
-		})
-		if err != nil {
-			return nil, fmt.Errorf("ViewRecords.Read: %w", err)
+		for j := range qnViews {
+			kb := as.ViewRecords().KeyBuilder(qnViews[j])
+			kb.PutInt64(viewP, 1)
+			err = as.ViewRecords().Read(ctx, istructs.WSID(ws), kb, func(k istructs.IKey, v istructs.IValue) error {
+				d.proj[j][ws] = append(d.proj[j][ws], [2]uint64{uint64(k.AsInt64(viewOff)), uint64(v.AsInt64(viewStamp) - kit.Epoch.UnixMilli())})
+				return nil
+			})
+			if err != nil {
+				return nil, fmt.Errorf("ViewRecords.Read: %w", err)
+			}
+			sort.Slice(d.proj[j][ws], func(a, b int) bool { return d.proj[j][ws][a][0] < d.proj[j][ws][b][0] })
 		}
-		sort.Slice(d.proj[ws], func(a, b int) bool { return d.proj[ws][a][0] < d.proj[ws][b][0] })
 	}
 	return d, nil
 }
@@ -295,11 +300,19 @@ func execute(sc scenario) (*result, error) {
 			}
 			// canonical description: the two branches of the fork run concurrently (view row first here),
 			// the NewIDs map of the raw reply comes in Go map order (rendered from the parsed values)
-			for i := 0; i+1 < len(calls); i++ {
-				if strings.HasSuffix(calls[i], "@wlog") && strings.HasSuffix(calls[i+1], "@view") {
-					calls[i], calls[i+1] = calls[i+1], calls[i]
-					i++
+			for i := 0; i < len(calls); {
+				j := i
+				for j < len(calls) && (strings.HasSuffix(calls[j], "@wlog") || strings.HasSuffix(calls[j], "@view")) {
+					j++
 				}
+				if j == i {
+					i++
+					continue
+				}
+				sort.SliceStable(calls[i:j], func(a, b int) bool {
+					return strings.HasSuffix(calls[i+a], "@view") && strings.HasSuffix(calls[i+b], "@wlog")
+				})
+				i = j
 			}
 			if o.class == "ok" {
 				o.text = fmt.Sprintf("%d CurrentWLogOffset=%d NewIDs=%v", rep.Status, o.woff, o.ids)
@@ -432,13 +445,19 @@ func (res *result) coq(lenient bool) string {
 		}
 		return
 	})
-	proj := by(func(ws uint64) (l []string) {
-		for _, x := range d.proj[ws] {
-			l = append(l, fmt.Sprintf("(%d, %d)", x[0], x[1]))
+	var projs []string
+	for j := range d.proj {
+		one := by(func(ws uint64) (l []string) {
+			for _, x := range d.proj[j][ws] {
+				l = append(l, fmt.Sprintf("(%d, %d)", x[0], x[1]))
+			}
+			return
+		})
+		if one != "[]" {
+			projs = append(projs, fmt.Sprintf("(%d, %s)", j, one))
 		}
-		return
-	})
-	return fmt.Sprintf("mkTrace %d %s %s %s %s %s %s", res.sc.TL, kit.Bool(lenient), kit.List(steps), kit.List(plog), wlog, recs, proj)
+	}
+	return fmt.Sprintf("mkTrace %d %d %s %s %s %s %s %s", res.sc.TL, numProj, kit.Bool(lenient), kit.List(steps), kit.List(plog), wlog, recs, kit.List(projs))
 }
 
 // ---- cases ----
@@ -464,8 +483,10 @@ func (res *result) desc(lenient bool) descT {
 		for _, x := range res.dump.recs[ws] {
 			d.Records = append(d.Records, fmt.Sprintf("ws%d/%d: V=%d active=%v", ws, x.id, x.v, x.act))
 		}
-		for _, x := range res.dump.proj[ws] {
-			d.Proj = append(d.Proj, fmt.Sprintf("ws%d/%d: stamp=%d", ws, x[0], x[1]))
+		for j := range res.dump.proj {
+			for _, x := range res.dump.proj[j][ws] {
+				d.Proj = append(d.Proj, fmt.Sprintf("proj%d ws%d/%d: stamp=%d", j, ws, x[0], x[1]))
+			}
 		}
 	}
 	return d
